@@ -37,7 +37,7 @@ META = {
         assumptions=COMMON_ASSUME + [
             "the scheduler only releases a goroutine into RLock/Lock when the model says it gets the lock at once (a goroutine blocked behind a pending writer is treated as not having reached RLock yet)",
             "when both cases of Accept's select are ready the context branch is taken (a legal outcome of the original select); the other outcome is explored by schedules where Accept is already blocked in the select",
-            "literal data-race freedom is not decided by the serialising scheduler; the thorough tier adds an auxiliary free-running -race stress (bin/racestress)",
+            "literal data-race freedom is not decided by the serialising scheduler; both tiers add an auxiliary free-running -race stress (bin/racestress; 8 s quick, 90 s thorough)",
         ]),
 }
 
@@ -125,13 +125,13 @@ _wire("C17", 40, 900,
 _wire("C15", 45, 900,
       "each run draws a plan: 2-6 clients from {authentication with own client state and extra protocols, authorized node-led fetch+authentication, unauthorized fetch, token enrollment with distinct per-token state, rejected authentication of a removed node}, 2-4 acceptor goroutines, and the listener's option slice with tape-chosen length 0-4 and spare capacity 0-8. The plan is executed twice in fresh identical worlds: one client at a time, then all clients concurrently with every simstore call and every simnet read/write/accept as a scheduling point of the seeded scheduler (with per-run priorities for long overtakes). Non-trivial: every plan with >=2 clients; distinct by (client kinds, option slice shape, acceptors, schedule hash).",
       ["isolation is decided by differential execution: per client the tuple (dial result, accept result, negotiated-protocol class, ClientState, ClientNextProtos tail, node record existence and state, token consumed) must be equal in both executions; connections are attributed to clients by a unique marker protocol each client offers",
-       "literal data-race freedom is not decided by the serialising scheduler (consequences of unsynchronised sharing are); the thorough tier adds an auxiliary free-running -race stress (bin/racestress)"])
+       "literal data-race freedom is not decided by the serialising scheduler (consequences of unsynchronised sharing are); both tiers add an auxiliary free-running -race stress (bin/racestress; 8 s quick, 90 s thorough)"])
 META["C19"] = dict(
     engine="kv", level="exploration", quick_s=25, thorough_s=600,
     rule="two thirds of the runs are sequential histories of 5-60 Store/Load/Remove/List operations over IDs {a,b,c,current,next,roots} x the four message types (unique payload per store; nil, typed-nil and unknown message types interspersed) on inmem, file (per-run scratch directory) or store-once, compared step by step with a typed map model; one third are concurrent histories (2-4 clients x 3-10 operations on a two-ID, two-type key space, inmem or store-once) where each operation is one step of the seeded scheduler, invoke/return are stamped with the scheduler's event counter, and the history is checked with porcupine against the same model. Non-trivial: all; distinct by (back end, history length, final model state) and (clients, operations, schedule hash).",
     assumptions=COMMON_ASSUME + [
         "Remove of an absent entry may return nil or an error (the statement is silent and the back ends differ); state must be unchanged",
-        "operations are atomic scheduling steps (the back ends have no internal seam): a missing lock is invisible to the deterministic part; that clause rests on the auxiliary -race stress of the thorough tier (bin/racestress)",
+        "operations are atomic scheduling steps (the back ends have no internal seam): a missing lock is invisible to the deterministic part; that clause rests on the auxiliary -race stress (bin/racestress; 8 s quick, 90 s thorough)",
         "porcupine Unknown (timeout) is counted as inconclusive and never reported"])
 
 HOOK_COMMITS = ["54f90f1", "c914c74", "9c93c69"]
